@@ -74,6 +74,14 @@ def run(chk):
         r, m = chk.prove('sum:' + total, tpc + ppc + [tv != rhs], timeout_ms=60000, family=fam,
                          sample={'obligation': '%s == %s%s for every model (callees uninterpreted)' % (total, ' + '.join(parts), ' * ' + factor if factor else '')})
         if r == 'sat':
+            # replay before reporting: the native driver sums the parts of real models
+            import subprocess
+            rr = subprocess.run(['python3-vt', '-m', 'props.replay_c15', 'parts'], cwd=VERIF, capture_output=True, text=True)
+            chk.traces_validated += 1
+            if rr.returncode != 1:
+                chk.record('sum:' + total, 'gap', 'total is not syntactically the sum of its parts but the native parts add up', family=fam)
+                chk.not_covered.append('parts of %s: structural mismatch not reproduced natively' % total)
+                continue
             chk.violation('sum:' + total, 'C15:parts-sum:%s' % total,
                           'the sub-contributions %s do not add up to %s: the detailed output lists parts that disagree with the total' % (
                               ', '.join(parts), total), replay)
